@@ -325,6 +325,14 @@ func (r *runner) step(o opT) (fw.Event, string) {
 	default:
 		return nil, "unknown operation " + o.Op
 	}
+	if o.Op == "Tick" {
+		// The heartbeat-timeout sweep evicts connections whose peer is silent; it must finish the
+		// eviction itself (cleanupStaleConnections calls CloseConnection for every stale entry):
+		// its result is observed before any read loop gets a chance to tidy up after it.
+		ev["proj"] = w.Projection()
+		w.S.Reap()
+		return ev, ""
+	}
 	w.S.Reap()
 	ev["proj"] = w.Projection()
 	return ev, ""
@@ -730,16 +738,16 @@ func main() {
 				})
 			}
 			return withTimeout(to, []fw.TLCJob{ // LEVEL 99 = complete state graph
-				{Name: "registry ops depth 11 (strict invariants)", Module: "Session", Cfg: "Session_c07.cfg",
-					Consts: map[string]string{"FIXES": fixes, "LEVEL": "11", "EMIT": `"no"`, "INV": strict}},
+				{Name: "registry ops depth 10 (strict invariants)", Module: "Session", Cfg: "Session_c07.cfg",
+					Consts: map[string]string{"FIXES": fixes, "LEVEL": "10", "EMIT": `"no"`, "INV": strict}},
 				{Name: "registry ops at the control-connection cap, complete", Module: "Session", Cfg: "Session_cap.cfg",
 					Consts: map[string]string{"FIXES": fixes, "LEVEL": "99", "EMIT": `"no"`}},
 				{Name: "interleaved critical sections, complete (strict invariants)", Module: "Session", Cfg: "Session_split.cfg",
 					Consts: map[string]string{"FIXES": fixes, "FAULTS": "{}", "LEVEL": "99", "INV": strict}},
-				{Name: "tree before patches C07-1/C07-2, depth 9 (invariants masked by the named deviations)", Module: "Session", Cfg: "Session_c07.cfg",
-					Consts: map[string]string{"FIXES": "{}", "LEVEL": "9", "EMIT": `"no"`, "INV": "C07InvMasked C07OneMasked"}},
-				{Name: "interleaved critical sections before C07-2, complete (login race masked)", Module: "Session", Cfg: "Session_split.cfg",
-					Consts: map[string]string{"FIXES": `{"oneIdentity"}`, "FAULTS": "{}", "LEVEL": "99", "INV": "C07Inv C07OneMasked"}},
+				{Name: "tree before patches C07-1/C07-2, depth 8 (invariants masked by the named deviations)", Module: "Session", Cfg: "Session_c07.cfg",
+					Consts: map[string]string{"FIXES": "{}", "LEVEL": "8", "EMIT": `"no"`, "INV": "C07InvMasked C07OneMasked"}},
+				{Name: "interleaved critical sections before C07-2, depth 14 (login race masked)", Module: "Session", Cfg: "Session_split.cfg",
+					Consts: map[string]string{"FIXES": `{"oneIdentity"}`, "FAULTS": "{}", "LEVEL": "14", "INV": "C07Inv C07OneMasked"}},
 			})
 		},
 		GenJobs: func(env *fw.Env) []fw.TLCJob {
